@@ -256,14 +256,15 @@ fn fnv64(s: &str) -> u64 {
 }
 
 pub fn leaf_texts(tier: &str) -> Vec<String> {
-    if tier == "bits" {
+    if tier == "bits" || tier == "bits-all" {
         // bit-boundary family: a component of 2^k + 1 for every k (packing / truncation slips show
         // at some power of two) next to small neighbours; one-sided leaves only
         let mut out: Vec<String> = vec![];
         for t in ["<=1.1.0", "<1.1.0", "<=2.0.0", "<2.0.0", ">=1.0.0", "<=1.0.5", ">=1.0.0-a", "<2.0.0-b"] {
             out.push(t.to_string());
         }
-        for k in 2..=49u32 {
+        let ks: Vec<u32> = if tier == "bits-all" { (2..=49).collect() } else { vec![2, 7, 8, 15, 16, 20, 21, 24, 28, 31, 32, 33, 40, 48, 49] };
+        for k in ks {
             for d in [0u64, 1, 2] {
                 let p = (1u64 << k) - 1 + d; // 2^k - 1, 2^k, 2^k + 1
                 if p > MAX_SAFE {
@@ -345,7 +346,7 @@ pub fn leaf_texts(tier: &str) -> Vec<String> {
 /// three-alternative operands in every order (used as operands against every leaf, both sides;
 /// not closed under further operations)
 pub fn probe3_texts(tier: &str) -> Vec<String> {
-    if tier == "exotic" || tier == "tiny" || tier == "bits" {
+    if tier == "exotic" || tier == "tiny" || tier == "bits" || tier == "bits-all" {
         return vec![];
     }
     let mut base: Vec<String> = vec![];
